@@ -29,11 +29,15 @@ import (
 	"testing"
 	"time"
 
+	"git.torproject.org/pluggable-transports/snowflake.git/v2/common/messages"
 	"git.torproject.org/pluggable-transports/snowflake.git/v2/common/turbotunnel"
+	"git.torproject.org/pluggable-transports/snowflake.git/v2/common/util"
 	"git.torproject.org/pluggable-transports/snowflake.git/v2/common/websocketconn"
 	vh "git.torproject.org/pluggable-transports/snowflake.git/v2/common/zzverif"
 	sfserver "git.torproject.org/pluggable-transports/snowflake.git/v2/server/lib"
 	"github.com/gorilla/websocket"
+	"github.com/pion/ice/v2"
+	"github.com/pion/webrtc/v3"
 	"github.com/xtaci/kcp-go/v5"
 	"github.com/xtaci/smux"
 )
@@ -168,9 +172,14 @@ func c01GenFault(rng *rand.Rand, first bool) c01Fault {
 
 // outage: the first carrier dies in the middle of a bulk upload and no proxy is available for several
 // seconds (KCP keeps retransmitting into the full send queue), then a working one appears
-func c01OutageFault(k int32) c01Fault {
+func c01OutageFault(k int32, downstream bool) c01Fault {
 	switch k {
 	case 1:
+		if downstream {
+			// bulk download: the carrier is cut after 256 KiB came down; the server keeps retransmitting ~1 MiB in
+			// flight into a send queue that nothing drains until the next carrier attaches
+			return c01Fault{upBudget: -1, downBudget: 256 << 10}
+		}
 		return c01Fault{upBudget: 1200000, downBudget: -1}
 	case 2:
 		return c01Fault{upBudget: -1, downBudget: -1, dialDelay: 5 * time.Second}
@@ -206,7 +215,7 @@ func c01Client(serverAddr string, res *c01Result, seed int64, maxFaults int, dea
 			f = c01Fault{upBudget: -1, downBudget: -1}
 		}
 		if res.outage {
-			f = c01OutageFault(k)
+			f = c01OutageFault(k, res.downLen > res.upLen)
 		}
 		res.faults = append(res.faults, f.String())
 		rngMu.Unlock()
@@ -470,6 +479,14 @@ func c01Stack(t *testing.T, prop string) {
 		}
 	}()
 
+	frozenDone := make(chan struct{})
+	if prop == "C01" {
+		go func() { defer close(frozenDone); c01FrozenProxy(r) }()
+	} else {
+		close(frozenDone)
+	}
+	defer func() { <-frozenDone }()
+
 	nSessions := r.N(40, 300)
 	idBase := make([]byte, 8)
 	rng.Read(idBase)
@@ -492,6 +509,9 @@ func c01Stack(t *testing.T, prop string) {
 		if s < r.N(2, 6) {
 			res.outage = true
 			res.upLen, res.downLen = 3<<20, 1000
+			if s%2 == 1 {
+				res.upLen, res.downLen = 1000, 4<<20 // outage during a bulk download
+			}
 		}
 		if s%2 == 0 {
 			res.idGroup = idBase
@@ -577,6 +597,118 @@ func c01Stack(t *testing.T, prop string) {
 	}
 }
 
+// c01Answerer stands in for broker + proxy: it answers the client's offer with an in-process pion peer whose
+// data channel echoes for `talk` and then goes silent without closing anything — a frozen (SIGSTOPped or
+// black-holed) proxy.
+type c01Answerer struct {
+	talk time.Duration
+	mu   sync.Mutex
+	pcs  []*webrtc.PeerConnection
+}
+
+func (s *c01Answerer) Exchange(req []byte) ([]byte, error) {
+	cr, err := messages.DecodeClientPollRequest(req)
+	if err != nil {
+		return nil, err
+	}
+	offer, err := util.DeserializeSessionDescription(cr.Offer)
+	if err != nil {
+		return nil, err
+	}
+	se := webrtc.SettingEngine{}
+	se.SetICEMulticastDNSMode(ice.MulticastDNSModeDisabled)
+	pc, err := webrtc.NewAPI(webrtc.WithSettingEngine(se)).NewPeerConnection(webrtc.Configuration{})
+	if err != nil {
+		return nil, err
+	}
+	pc.OnDataChannel(func(dc *webrtc.DataChannel) {
+		var opened time.Time
+		dc.OnOpen(func() { opened = time.Now() })
+		dc.OnMessage(func(m webrtc.DataChannelMessage) {
+			if !opened.IsZero() && time.Since(opened) < s.talk {
+				dc.Send(m.Data)
+			}
+		})
+	})
+	done := webrtc.GatheringCompletePromise(pc)
+	if err = pc.SetRemoteDescription(*offer); err != nil {
+		return nil, err
+	}
+	ans, err := pc.CreateAnswer(nil)
+	if err != nil {
+		return nil, err
+	}
+	if err = pc.SetLocalDescription(ans); err != nil {
+		return nil, err
+	}
+	<-done
+	sd, err := util.SerializeSessionDescription(pc.LocalDescription())
+	if err != nil {
+		return nil, err
+	}
+	s.mu.Lock()
+	s.pcs = append(s.pcs, pc)
+	s.mu.Unlock()
+	resp := &messages.ClientPollResponse{Answer: sd}
+	return resp.EncodePollResponse()
+}
+
+func (s *c01Answerer) close() {
+	s.mu.Lock()
+	defer s.mu.Unlock()
+	for _, pc := range s.pcs {
+		pc.Close()
+	}
+}
+
+// c01FrozenProxy: the carrying proxy freezes (its data channel stays open but nothing comes back) while the
+// client keeps sending, as KCP retransmissions and smux keep-alives make it do.  The real peer (built by the
+// real NewWebRTCPeerWithEvents, with its real staleness check) must be given up within SnowflakeTimeout plus
+// slack, so that the redial loop can move the session to another proxy; a peer that is never given up
+// stalls the stream for good although working proxies are available.
+func c01FrozenProxy(r *vh.Run) {
+	st := &c01Answerer{talk: 1500 * time.Millisecond}
+	defer st.close()
+	bc := &BrokerChannel{Rendezvous: st, keepLocalAddresses: true, natType: "unknown"}
+	type res struct {
+		p   *WebRTCPeer
+		err error
+	}
+	made := make(chan res, 1)
+	go func() {
+		p, err := NewWebRTCPeerWithEvents(&webrtc.Configuration{}, bc, nil)
+		made <- res{p, err}
+	}()
+	var peer *WebRTCPeer
+	select {
+	case x := <-made:
+		if x.err != nil {
+			r.Skip("frozen-proxy scenario not run: no pion connectivity in this sandbox (" + x.err.Error() + ")")
+			return
+		}
+		peer = x.p
+	case <-time.After(30 * time.Second):
+		r.Skip("frozen-proxy scenario not run: peer construction did not return within 30 s")
+		return
+	}
+	defer peer.Close()
+	go io.Copy(io.Discard, peer)
+	t0 := time.Now()
+	echoed := false
+	for !peer.Closed() && time.Since(t0) < SnowflakeTimeout+st.talk+8*time.Second {
+		if _, err := peer.Write([]byte("c01 keep-alive / retransmission")); err != nil {
+			break
+		}
+		echoed = true
+		time.Sleep(200 * time.Millisecond)
+	}
+	desc := fmt.Sprintf("proxy echoes for %v then freezes (data channel stays open); client writes every 200 ms; SnowflakeTimeout %v", st.talk, SnowflakeTimeout)
+	r.Case("frozen-proxy", desc, echoed)
+	if !peer.Closed() {
+		r.OracleFail("frozen-proxy-never-given-up", desc, fmt.Sprintf("peer still open %v after the proxy went silent", time.Since(t0)-st.talk),
+			"a frozen proxy must be detected (no message received for SnowflakeTimeout) and its peer closed, otherwise the session never moves to a working proxy")
+	}
+}
 
 // c01Tongue hands out peers the way the repository's own tests fake them.
 type c01Tongue struct{ n int }
